@@ -188,8 +188,48 @@ def check(case):
     return {'nontrivial': nruns >= 2 and eqni, 'labels': labels}
 
 
+EQ_VALUES = [1, 1.0, True, 0, 0.0, -0.0, False, 2, 2.0]
+
+
+def type_sign(v):
+    """a pure criterion that tells apart items that are EQUAL and hash alike: (type name, sign bit)"""
+    import math
+    return (type(v).__name__, math.copysign(1.0, v))
+
+
+@st.composite
+def eq_case(draw):
+    return {'vals': draw(st.lists(st.integers(0, len(EQ_VALUES) - 1), min_size=draw(st.sampled_from([0, 2, 5])), max_size=12)),
+            'grouped': draw(st.booleans())}
+
+
+def check_eqitems(case):
+    """Items that compare equal (1 == 1.0 == True, 0.0 == -0.0) but get different criterion values from a pure predicate: the
+    segments are the runs of equal CRITERION values, whatever the items' own equality says."""
+    xs = [EQ_VALUES[k] for k in case['vals']]
+    runs = []
+    for x in xs:
+        if runs and not (type_sign(x) != type_sign(runs[-1][-1])):
+            runs[-1].append(x)
+        else:
+            runs.append([x])
+    inner = [rs.data.split(type_sign, [rs.data.to_list()])]
+    r = drive.store(xs, [rs.ops.group_by(lambda v: 'k', inner)] if case['grouped'] else inner)
+    H.require_clean(r, 'split on equal-but-distinguishable items', **case)
+
+    def same(a, b):
+        import math
+        return type(a) is type(b) and a == b and math.copysign(1.0, a) == math.copysign(1.0, b)
+    if len(r.items) != len(runs) or any(len(g) != len(w) or not all(same(a, b) for a, b in zip(g, w)) for g, w in zip(r.items, runs)):
+        raise Violation('segments differ from the runs of equal criterion values', items=[repr(x) for x in xs],
+                        expected=[[repr(x) for x in w] for w in runs], got=[[repr(x) for x in g] for g in r.items], **case)
+    return {'nontrivial': len(runs) >= 2 and len(runs) < len(xs), 'labels': ['grouped' if case['grouped'] else 'top']}
+
+
 def subs(tier):
     return [
+        Sub('eqitems', check_eqitems, gen=eq_case, examples={'quick': 400, 'thorough': 20000},
+            doc='items that are equal and hash alike (1 / 1.0 / True, 0.0 / -0.0) split by a predicate that tells them apart'),
         Sub('runs', check, gen=case_gen, examples={'quick': 3000, 'thorough': 150000},
             doc='split at top level / under group_by / in roll / in split: segments == maximal runs by != (clocked taps) + whole output vs model'),
     ]
